@@ -248,7 +248,7 @@ class Entity(_EntityBase):
     def update(self):
         """Update the entity from current data in mdib."""
         super().update()
-        orig = self._mdib.states.get_one(self.handle)
+        orig = self._mdib.states.descriptor_handle.get_one(self.handle)
         self.state.update_from_other_container(orig)
 
 
